@@ -189,10 +189,35 @@ def check(prop, tier, seed):
                 notes.append('generated-model tie (.pyx): %s — %s' % (gp.get('status'), gp.get('reason') or gp.get('note')))
             if gp.get('status_validation'):
                 notes.append('generated-model tie (.pyx): ' + gp['status_validation'])
+        if prop in ('C05', 'C10', 'C11'):
+            # the methods of the function classes have their own generated model
+            try:
+                gen_res['function_classes'] = gentie.gen_tie_classes(tier, random.Random(seed * 41 + 13))
+            except Exception as ex:
+                gen_res['function_classes'] = {'status': 'error', 'reason': repr(ex)[:300]}
+            gc_ = gen_res['function_classes']
+            if gc_.get('status') != 'identical':
+                notes.append('generated-model tie (function classes): %s — %s' % (gc_.get('status'), gc_.get('reason') or gc_.get('note')))
+            if gc_.get('status_validation'):
+                notes.append('generated-model tie (function classes): ' + gc_['status_validation'])
+        for key_, fn_, props_ in (('plottable_data', gentie.gen_tie_plottable, ('C11',)), ('isi_lengths', gentie.gen_tie_isi_lengths, ('C15',))):
+            if prop in props_:
+                try:
+                    gen_res[key_] = fn_(tier, random.Random(seed * 43 + 17))
+                except Exception as ex:
+                    gen_res[key_] = {'status': 'error', 'reason': repr(ex)[:300]}
+                if gen_res[key_].get('status') != 'identical':
+                    notes.append('generated-model tie (%s): %s — %s' % (key_, gen_res[key_].get('status'), gen_res[key_].get('reason') or gen_res[key_].get('note')))
+                if gen_res[key_].get('status_validation'):
+                    notes.append('generated-model tie (%s): %s' % (key_, gen_res[key_]['status_validation']))
         if gen_res.get('status') != 'identical':
             notes.append('generated-model tie: %s — %s' % (gen_res.get('status'), gen_res.get('reason') or gen_res.get('note')))
         if gen_res.get('status_validation'):
             notes.append('generated-model tie: ' + gen_res['status_validation'])
+        for k_, v_ in [('', gen_res)] + [(k_, v_) for k_, v_ in gen_res.items() if isinstance(v_, dict)]:
+            tv = v_.get('translator_validation') if isinstance(v_, dict) else None
+            if isinstance(tv, dict) and tv.get('error'):
+                notes.append('generated-model tie %s: translator validation could not run: %s' % (k_, tv['error']))
     # ---- 2. correspondence
     suite_res = []
     evaluated = 0
